@@ -4,7 +4,7 @@ import sys, os
 sys.path.insert(0, os.path.dirname(os.path.dirname(os.path.abspath(__file__))))
 from concurrent.futures import ProcessPoolExecutor
 from selftest.transforms import TRANSFORMS, overlay
-from check import run_property, PROPS
+from check import decide_property as run_property, PROPS
 
 def one(job):
     prop, tname = job
